@@ -22,7 +22,8 @@ gn const … <form> <tval>*              trait constants of the line: s:<hex> i:
 gn trait <T> <Trait> v,v,…             accessor                        -> rendered constants
 gn ptrait <T> <Trait> <tval>           Parse<T>(typed trait constant)  -> ok:<v> | err
 gn marshal <T> <json|text|yaml> v,…    encoding, read back as a plain string                   -> s,s,…
-gn rt <T> <codec> v,…                  decode(encode v)                -> ok:<v>,…
+gn rt <T> <codec> v,…                  decode(encode v), into a target holding another value   -> ok:<v>,…
+gn rtf <T> <json|yaml> v,…             the same as a struct field                              -> ok:<v>,…
 gn sdec <T> <codec> <Trait> <tval>     decode a scalar document holding that trait constant: what the
                                        PROPERTY demands (the owning value), not the decoder model  -> ok:<v> | err
 gn dec <T> <codec> <doc>               doc = s:<hex> string | n:<literal> number | o:<hex> other scalar -> ok:<v> | err
@@ -188,6 +189,14 @@ def handle (st : St) (ws : List String) : St × String :=
       | "marshal", [_codec, w] =>
         match valsArg td.kind w with
         | some vs => (st, joinComma (vs.map gf.marshal))
+        | none => (st, "bad-op")
+      | "rtf", [codec, w] =>
+        -- round trip as a struct field: the same decoder is reached through the library
+        if codec = "text" then (st, "bad-op") else
+        match valsArg td.kind w with
+        | some vs =>
+          let dec := fun (s : String) => if codec = "json" then gf.unmarshalJSON {} (.str s) else gf.unmarshalYAML {} s
+          (st, joinComma (vs.map (fun v => showRes (dec (gf.marshal v)))))
         | none => (st, "bad-op")
       | "rt", [codec, w] =>
         match valsArg td.kind w with
